@@ -43,6 +43,42 @@ def parseTab (gs : List (List String)) : Option Tab :=
 
 def showRes (r : Str × Bool) : String := (if r.2 then "ok " else "err ") ++ hexRunes r.1
 
+/-- one call on code-point arguments -/
+def handleCall (P : Prims) (call : List String) : String :=
+  match call with
+  | ["split", a] => match unhexRunes? a with
+    | some a => match split a with
+      | .ok (m, d) => s!"ok {hexRunes m} {hexRunes d}"
+      | .error _ => "err"
+    | none => "bad-op"
+  | ["unquote", m] => match unhexRunes? m with
+    | some m => match unquoteMbox m with
+      | .ok r => "ok " ++ hexRunes r
+      | .error _ => "err"
+    | none => "bad-op"
+  | ["quote", m] => match unhexRunes? m with
+    | some m => hexRunes (quoteMbox m)
+    | none => "bad-op"
+  | ["isascii", s] => match unhexRunes? s with
+    | some s => if isASCII s then "1" else "0"
+    | none => "bad-op"
+  | ["toascii", a] => (unhexRunes? a).elim "bad-op" (fun a => showRes (toASCII P a))
+  | ["tounicode", a] => (unhexRunes? a).elim "bad-op" (fun a => showRes (toUnicode P a))
+  | ["forlookup", a] => (unhexRunes? a).elim "bad-op" (fun a => showRes (forLookup P a))
+  | ["cleandomain", a] => (unhexRunes? a).elim "bad-op" (fun a => showRes (cleanDomain P a))
+  | ["dnsforlookup", a] => (unhexRunes? a).elim "bad-op" (fun a => showRes (dnsForLookup P a))
+  | ["valid", a] => (unhexRunes? a).elim "bad-op" (fun a => if valid P a then "1" else "0")
+  | ["equal", a, b] => match unhexRunes? a, unhexRunes? b with
+    | some a, some b => if equal P a b then "1" else "0"
+    | _, _ => "bad-op"
+  | ["dnsequal", a, b] => match unhexRunes? a, unhexRunes? b with
+    | some a, some b => if dnsEqual P a b then "1" else "0"
+    | _, _ => "bad-op"
+  | _ => "bad-op"
+
+/-- `C17 <fn> <code points>… | table` or, for arguments that are arbitrary BYTE strings (invalid UTF-8
+included), `C17 b <fn> <hex bytes>… | table`: the bytes are decoded the way Go's `range` does
+(`decodeUtf8`) and the call runs on the resulting code points. -/
 def handle (toks : List String) : String :=
   match groups toks with
   | [] => "bad-op"
@@ -52,34 +88,10 @@ def handle (toks : List String) : String :=
     | some tab =>
       let P := tab.prims
       match call with
-      | ["split", a] => match unhexRunes? a with
-        | some a => match split a with
-          | .ok (m, d) => s!"ok {hexRunes m} {hexRunes d}"
-          | .error _ => "err"
+      | "b" :: fn :: args =>
+        match args.mapM unhexBytes? with
+        | some bss => handleCall P (fn :: bss.map (fun bs => hexRunes (decodeUtf8 bs)))
         | none => "bad-op"
-      | ["unquote", m] => match unhexRunes? m with
-        | some m => match unquoteMbox m with
-          | .ok r => "ok " ++ hexRunes r
-          | .error _ => "err"
-        | none => "bad-op"
-      | ["quote", m] => match unhexRunes? m with
-        | some m => hexRunes (quoteMbox m)
-        | none => "bad-op"
-      | ["isascii", s] => match unhexRunes? s with
-        | some s => if isASCII s then "1" else "0"
-        | none => "bad-op"
-      | ["toascii", a] => (unhexRunes? a).elim "bad-op" (fun a => showRes (toASCII P a))
-      | ["tounicode", a] => (unhexRunes? a).elim "bad-op" (fun a => showRes (toUnicode P a))
-      | ["forlookup", a] => (unhexRunes? a).elim "bad-op" (fun a => showRes (forLookup P a))
-      | ["cleandomain", a] => (unhexRunes? a).elim "bad-op" (fun a => showRes (cleanDomain P a))
-      | ["dnsforlookup", a] => (unhexRunes? a).elim "bad-op" (fun a => showRes (dnsForLookup P a))
-      | ["valid", a] => (unhexRunes? a).elim "bad-op" (fun a => if valid P a then "1" else "0")
-      | ["equal", a, b] => match unhexRunes? a, unhexRunes? b with
-        | some a, some b => if equal P a b then "1" else "0"
-        | _, _ => "bad-op"
-      | ["dnsequal", a, b] => match unhexRunes? a, unhexRunes? b with
-        | some a, some b => if dnsEqual P a b then "1" else "0"
-        | _, _ => "bad-op"
-      | _ => "bad-op"
+      | _ => handleCall P call
 
 end Driver.C17
